@@ -78,8 +78,8 @@ def param_variants(cls, interp) -> list[dict]:
             if d is not None:
                 opts.append("default")
             opts.append(TV(kind="tensor", note="user-callable", origin=frozenset([name])))
-        if "str" in kinds and d is not None:
-            opts.append("default")
+        if "str" in kinds:
+            opts.append(Const(f"<{name}>"))
         if "bool" in kinds:
             opts.append(TV(kind="pybool", dtype="Bool", origin=frozenset([name])))
         if "none" in kinds:
@@ -102,6 +102,8 @@ def variant_label(v: dict) -> str:
     for k, x in v.items():
         if x == NONE:
             parts.append(f"{k}=None")
+        elif isinstance(x, Const):
+            continue
         elif isinstance(x, TV) and x.note == "user-callable":
             parts.append(f"{k}=<callable>")
         else:
